@@ -994,6 +994,8 @@ orc_x86_insn_output_modrm (OrcCompiler *const p, const OrcX86Insn *const xinsn)
       *p->codeptr++ = xinsn->opcode->code2;
       break;
     case ORC_X86_INSN_TYPE_STACK:
+      /* r8-r15 need REX.B; the operand size of push/pop is 64 bits already */
+      orc_x86_emit_rex (p, 0, 0, 0, xinsn->dest);
       *p->codeptr++ = xinsn->opcode->code + (xinsn->dest&0x7);
       break;
     case ORC_X86_INSN_TYPE_BRANCH:
